@@ -99,7 +99,7 @@ type c04File struct {
 }
 
 // c04GenFile builds a file of one-line statements, each preceded by a prefix of a random class.
-func c04GenFile(r *Rng, idx int, le string) c04File {
+func c04GenFile(r *Rng, idx int, le string, nfiles int) c04File {
 	var sb strings.Builder
 	cls := map[int]string{}
 	line := 0
@@ -137,6 +137,13 @@ func c04GenFile(r *Rng, idx int, le string) c04File {
 	emit(nx(), fmt.Sprintf("for %si = 1, %salpha do print(%si, %sbeta) end", pre, pre, pre, pre))
 	emit(nx(), fmt.Sprintf("%sTab = {} function %sTab.method(%sself2, %sarg) return %sarg end", pre, pre, pre, pre, pre))
 	emit(nx(), fmt.Sprintf("print(%sTab.method(%sTab, %salpha), %sDup(1, 2))", pre, pre, pre, pre))
+	// uses of another file's globals: every answer for them has to lie in (and name text of) the right document
+	if nfiles > 1 {
+		o := fmt.Sprintf("f%d", (idx+1)%nfiles)
+		emit(nx(), fmt.Sprintf("print(%sGlob, %sFunc(1, 2), %sTab.method(%sTab, 1))", o, o, o, o))
+		emit(nx(), fmt.Sprintf("local %sborrow = %sFunc(%sGlob, %sGlob)", pre, o, o, o))
+		emit(nx(), fmt.Sprintf("print(%sborrow)", pre))
+	}
 	// Lua 5.4 attributes on the first and on later names of a declaration list
 	emit(nx(), fmt.Sprintf("local %sca <const>, %scb <const>, %scc, %scd<close> = 1, 2, 3, nil", pre, pre, pre, pre))
 	emit(nx(), fmt.Sprintf("print(%sca, %scb, %scc, %scd)", pre, pre, pre, pre))
@@ -160,8 +167,9 @@ func runC04(c *Ctx) {
 		le := []string{"\n", "\r\n", "\r"}[r.Intn(3)]
 		var files []c04File
 		fm := map[string]string{}
-		for k := 0; k < r.Range(1, 3); k++ {
-			f := c04GenFile(r, k, le)
+		nf := r.Range(1, 3)
+		for k := 0; k < nf; k++ {
+			f := c04GenFile(r, k, le, nf)
 			files = append(files, f)
 			fm[f.Rel] = f.Text
 		}
